@@ -213,8 +213,9 @@ class StyleCodes(Part):
 
     def strategy(self, tier):
         src = Generated().strategy(tier)
-        return st.builds(lambda fg, bg, attrs, systems: {"fg": fg, "bg": bg, "attrs": attrs, "systems": systems}, st.one_of(st.none(), src, src), st.one_of(st.none(), src, src),
-                         st.lists(st.sampled_from(["bold", "italic", "underline"]), max_size=2, unique=True), st.lists(st.sampled_from(SYSTEMS), min_size=2, max_size=4))
+        plus = st.one_of(st.none(), st.builds(lambda fg, bg, link: {"fg": fg, "bg": bg, "link": link}, st.one_of(st.none(), st.none(), src), st.one_of(st.none(), src, src), st.booleans()))
+        return st.builds(lambda fg, bg, attrs, systems, pl: {"fg": fg, "bg": bg, "attrs": attrs, "systems": systems, "plus": pl}, st.one_of(st.none(), src, src), st.one_of(st.none(), src, src),
+                         st.lists(st.sampled_from(["bold", "italic", "underline"]), max_size=2, unique=True), st.lists(st.sampled_from(SYSTEMS), min_size=2, max_size=4), plus)
 
     def check(self, spec, ctx):
         import re
@@ -241,6 +242,26 @@ class StyleCodes(Part):
                 ctx.violation("sgr", "C18/sgr/style-%s" % ("first" if si == 0 else "after-another-system"),
                               "Style(color=%r, bgcolor=%r, %r) rendered for %s (after %r) as %r, expected parameters %r" % (fg, bg, spec["attrs"], sysname, spec["systems"][:si], out, want))
                 return
+        # a style derived from the one just rendered (base + another style that may carry only a background and a link) has codes of its own
+        pl = spec.get("plus")
+        if pl:
+            other = sut(Style, color=g.build(pl["fg"])[0] if pl["fg"] else None, bgcolor=g.build(pl["bg"])[0] if pl["bg"] else None, link="https://example.org/x" if pl["link"] else None)
+            derived = sut(lambda: style + other)
+            eff_fg = pl["fg"] or spec["fg"]
+            eff_bg = pl["bg"] or spec["bg"]
+            for sysname in spec["systems"]:
+                system = ColorSystem[sysname]
+                out = sut(derived.render, "X", color_system=system, legacy_windows=True)   # legacy_windows: no hyperlink sequence around the text
+                want = [attr_code[a] for a in ("bold", "italic", "underline") if a in spec["attrs"]]
+                for src, is_fg in ((eff_fg, True), (eff_bg, False)):
+                    if src:
+                        want += list(expected_codes(kind_of(sut(g.build(src)[0].downgrade, system)), is_fg))
+                m = re.fullmatch(r"\x1b\[([0-9;]*)mX\x1b\[0m", out)
+                got = m.group(1).split(";") if m else (None if out != "X" else [])
+                if got != want:
+                    ctx.violation("sgr", "C18/sgr/style-derived", "(%r + %r) rendered for %s as %r, expected parameters %r (the left operand had been rendered for %r before)" % (style, other, sysname, out, want, spec["systems"]))
+                    return
+            ctx.cls("derived-by-addition")
         if fg is not None and bg is not None and fg.type != bg.type and len(set(spec["systems"])) >= 2:
             ctx.nontrivial = True
             ctx.cls("mixed-kinds")
